@@ -175,7 +175,8 @@ impl<'a> AnnotationCsv<'a> {
                 for subselector in subselectors {
                     out.push(';'); //delimiter
                     match subselector {
-                        Selector::RangedTextSelector { .. } => {
+                        Selector::RangedTextSelector { .. }
+                        | Selector::RangedAnnotationSelector { .. } => {
                             for (i, subselector) in subselector.iter(store, false).enumerate() {
                                 if i > 0 {
                                     out.push(';');
@@ -215,6 +216,15 @@ impl<'a> AnnotationCsv<'a> {
                                 store.get(*dataset).expect("dataset must exist");
                             out += dataset.id().expect("dataset must have an id");
                         }
+                        Selector::RangedTextSelector { .. }
+                        | Selector::RangedAnnotationSelector { .. } => {
+                            //keep the columns aligned: one (empty) slot per selector in the range
+                            for (i, _) in subselector.iter(store, false).enumerate() {
+                                if i > 0 {
+                                    out.push(';');
+                                }
+                            }
+                        }
                         _ => {}
                     }
                 }
@@ -249,6 +259,15 @@ impl<'a> AnnotationCsv<'a> {
                             let key: &DataKey =
                                 dataset.get(*key).expect("key must exist");
                             out += key.id().expect("key must have an id");
+                        }
+                        Selector::RangedTextSelector { .. }
+                        | Selector::RangedAnnotationSelector { .. } => {
+                            //keep the columns aligned: one (empty) slot per selector in the range
+                            for (i, _) in subselector.iter(store, false).enumerate() {
+                                if i > 0 {
+                                    out.push(';');
+                                }
+                            }
                         }
                         _ => {}
                     }
@@ -291,6 +310,15 @@ impl<'a> AnnotationCsv<'a> {
                                 out += data.temp_id().expect("temp_id must succeed").as_str();
                             }
                         }
+                        Selector::RangedTextSelector { .. }
+                        | Selector::RangedAnnotationSelector { .. } => {
+                            //keep the columns aligned: one (empty) slot per selector in the range
+                            for (i, _) in subselector.iter(store, false).enumerate() {
+                                if i > 0 {
+                                    out.push(';');
+                                }
+                            }
+                        }
                         _ => {}
                     }
                 }
@@ -321,7 +349,8 @@ impl<'a> AnnotationCsv<'a> {
                 for subselector in subselectors {
                     out.push(';'); //delimiter
                     match subselector {
-                        Selector::RangedAnnotationSelector { .. } => {
+                        Selector::RangedTextSelector { .. }
+                        | Selector::RangedAnnotationSelector { .. } => {
                             for (i, subselector) in subselector.iter(store, false).enumerate() {
                                 if i > 0 {
                                     out.push(';');
@@ -828,6 +857,9 @@ impl<'a, 'b> TryInto<AnnotationBuilder<'a>> for AnnotationCsv<'a> {
                     BuildItem::from(data_id.to_owned()),
                 );
             }
+        }
+        //the target is independent of the data (rows without data are valid too)
+        {
             let mut selectortypes: SmallVec<[SelectorKind; 1]> = SmallVec::new();
             let mut complex = false;
             for (i, selectortype) in self.selectortype.split(";").enumerate() {
@@ -884,13 +916,13 @@ impl<'a, 'b> TryInto<AnnotationBuilder<'a>> for AnnotationCsv<'a> {
                         "",
                     ));
                 }
-                if self.targetkey.unwrap_or(Cow::Borrowed("")).find(";").is_some() {
+                if self.targetkey.as_deref().unwrap_or("").find(";").is_some() {
                     return Err(StamError::CsvError(
                         format!("Multiple target keys were specified, but without a complex selector"),
                         "",
                     ));
                 }
-                if self.targetdata.unwrap_or(Cow::Borrowed("")).find(";").is_some() {
+                if self.targetdata.as_deref().unwrap_or("").find(";").is_some() {
                     return Err(StamError::CsvError(
                         format!("Multiple target data were specified, but without a complex selector"),
                         "",
@@ -929,7 +961,31 @@ impl<'a, 'b> TryInto<AnnotationBuilder<'a>> for AnnotationCsv<'a> {
                         let dataset = self.targetdataset;
                         SelectorBuilder::DataSetSelector(BuildItem::Id(dataset.to_string()))
                     }
-                    _ => unreachable!(),
+                    SelectorKind::DataKeySelector => {
+                        let dataset = self.targetdataset;
+                        let key = self.targetkey.unwrap_or(Cow::Borrowed(""));
+                        SelectorBuilder::DataKeySelector(
+                            BuildItem::Id(dataset.to_string()),
+                            BuildItem::Id(key.to_string()),
+                        )
+                    }
+                    SelectorKind::AnnotationDataSelector => {
+                        let dataset = self.targetdataset;
+                        let data = self.targetdata.unwrap_or(Cow::Borrowed(""));
+                        SelectorBuilder::AnnotationDataSelector(
+                            BuildItem::Id(dataset.to_string()),
+                            BuildItem::Id(data.to_string()),
+                        )
+                    }
+                    _ => {
+                        return Err(StamError::CsvError(
+                            format!(
+                                "Selector type {} can not be used on its own",
+                                selectortypes[0].as_str()
+                            ),
+                            "",
+                        ))
+                    }
                 }
             } else {
                 let targetresources: SmallVec<[&str; 1]> = self.targetresource.split(";").collect();
